@@ -35,6 +35,7 @@ type oblig struct {
 	model   string
 	qsize   int
 	knownBy string
+	qfile   string
 	except  string
 	goalSk  string   // goal with positive universal quantifiers skolemised
 	insts2  []string // wider instance set (neighbours of skolems, array index terms), second ground attempt
@@ -66,6 +67,12 @@ type unit struct {
 	kf      *knownFindings
 	ghostTypes map[string]types.Type
 	rawBoxed bool
+	cutHeaders map[*ssa.BasicBlock]bool
+	modBases map[string]bool
+	cutDone map[*ssa.BasicBlock]bool
+	entryPC []string
+	entryVals map[ssa.Value]Val
+	entryOld *state
 	lemma   *specFun
 	returns int
 }
@@ -108,6 +115,9 @@ type state struct {
 	dead    bool
 	curLoopPre *state
 	cands   []binder
+	gen     string // heap/ghost symbol generation: "" at function entry, "cN" on a path started at cut point N
+	cutStart bool  // this state is the generic start of a cut loop (skip the cut once)
+	cutMode bool   // started at a loop cut point: values defined before the loop are fresh symbols
 	deferArgs map[*ssa.Defer][]Val
 }
 
@@ -278,7 +288,11 @@ func (s *state) heap(name, elemSort string) string {
 	} else {
 		srt = s.heapSortOf(elemSort)
 	}
-	q := s.u.declare(name+"@0", srt)
+	gen := s.gen
+	if s.cutMode && !s.u.mayModify(name) {
+		gen = "" // not in the unit's modifies clause: still the entry heap
+	}
+	q := s.u.declare(name+"@0"+gen, srt)
 	s.heaps[name] = q
 	s.hsort[name] = elemSort
 	return q
